@@ -4,11 +4,23 @@ EXTENDS JsonValue
 (* decodeSchemaConstructs (continue on error); the body is then judged without it.        *)
 (* F-C06-2: multipart parts without an explicit JSON content type are decoded by the      *)
 (* text/plain decoder into strings, whatever the property's declared type.                *)
+(* F-C06-3: a urlencoded property without a "type" of its own and without a composition    *)
+(* (a bare enum) decodes to nothing: the field is dropped, its constraint is never checked. *)
+(* F-C06-4: when validation installs a default into a urlencoded (or multipart) body the    *)
+(* body has to be written back, there is no encoder for that media type, and the conforming *)
+(* request is rejected ("rewriting failed").                                                *)
+HasKeyK(v, k) == \E i \in DOMAIN v.k : v.k[i] = k
 Class(line, bad) ==
    LET c == line.c IN
    IF c.part # "decode" THEN "none"
+   ELSE IF c.family = "form" /\ HasKeyK(c.v, "u3") /\ bad \subseteq {"violating_body_rejected", "decoded_value"} /\ line.verdict = "ok"
+           /\ "val" \in DOMAIN line.dec /\ ~HasKeyK(line.dec.val, "u3")
+   THEN "form_untyped_property_dropped"
+   ELSE IF c.family \in {"form", "multipart"} /\ c.setDefaults /\ c.schema = "S3" /\ ~HasKeyK(c.v, "ro")
+           /\ "conforming_body_accepted" \in bad /\ "reason" \in DOMAIN line /\ line.reason = "rewriting failed"
+   THEN "form_body_default_rewriting_failed"
    ELSE IF c.family = "form" /\ bad = {"violating_body_rejected"} /\ line.verdict = "ok"
-           /\ \E i \in DOMAIN c.v.k : (c.v.k[i] = "n" /\ c.v.v[i].t = "str")
+           /\ \E i \in DOMAIN c.v.k : (c.v.k[i] \in {"n", "u1"} /\ c.v.v[i].t = "str")
                                       \/ (c.v.k[i] = "l" /\ \E j \in DOMAIN c.v.v[i].a : c.v.v[i].a[j].t = "str")
    THEN "form_unparsable_field_dropped"
    ELSE IF c.family = "multipart" /\ HasNum(c.v) /\ bad \subseteq {"conforming_body_accepted", "decoded_value"}
